@@ -135,27 +135,51 @@ pub fn header_sets() -> Vec<HeaderSet> {
             after_body: vec![],
         },
         HeaderSet {
-            name: "content-type-header-before-body",
-            before_body: vec![h("Content-Type", "text/x-custom; charset=UTF-8")],
-            after_body: vec![],
-        },
-        HeaderSet {
-            name: "content-type-header-after-body",
-            before_body: vec![],
-            after_body: vec![h("content-type", "Application/X-Custom")],
-        },
-        HeaderSet {
-            name: "content_type()-after-body",
-            before_body: vec![],
-            after_body: vec![HOp::ContentType("text/html;charset=utf-8")],
-        },
-        HeaderSet {
             name: "same-name-set-twice-mixed-case",
             before_body: vec![h("X-Dup", "first"), h("x-dup", "Second")],
             after_body: vec![h("x-other", "o")],
         },
         HeaderSet { name: "twenty-four", before_body: many, after_body: vec![] },
     ]
+}
+
+/// How and *when* the app states a content type of its own. Builder-call order is a dimension:
+/// the documented behaviour is that an app-specified content type wins wherever it is written,
+/// and the body kind's default applies only when the app wrote none.
+#[derive(Debug, Clone, Copy, PartialEq, Eq)]
+pub enum CtPlacement {
+    None,
+    /// `.header("Content-Type", v)` before the body call
+    HeaderBeforeBody,
+    /// `.header("cOnTeNt-TyPe", v)` after the body call
+    HeaderAfterBody,
+    /// `.content_type(mime)` before the body call
+    MethodBeforeBody,
+    /// `.content_type(mime)` after the body call
+    MethodAfterBody,
+}
+pub const CT_PLACEMENTS: &[CtPlacement] = &[
+    CtPlacement::None,
+    CtPlacement::HeaderBeforeBody,
+    CtPlacement::HeaderAfterBody,
+    CtPlacement::MethodBeforeBody,
+    CtPlacement::MethodAfterBody,
+];
+/// written through `.header(..)`: reaches the shell byte for byte
+const CT_HEADER_VALUE: &str = "Application/Vnd.Api+JSON; Charset=UTF-8; v=2";
+/// written through `.content_type(..)`: a `Mime`, compared normalised
+const CT_METHOD_VALUE: &str = "text/html;charset=utf-8";
+
+impl CtPlacement {
+    fn op(self) -> Option<(bool, HOp)> {
+        match self {
+            CtPlacement::None => None,
+            CtPlacement::HeaderBeforeBody => Some((false, HOp::Header("Content-Type", vec![CT_HEADER_VALUE]))),
+            CtPlacement::HeaderAfterBody => Some((true, HOp::Header("cOnTeNt-TyPe", vec![CT_HEADER_VALUE]))),
+            CtPlacement::MethodBeforeBody => Some((false, HOp::ContentType(CT_METHOD_VALUE))),
+            CtPlacement::MethodAfterBody => Some((true, HOp::ContentType(CT_METHOD_VALUE))),
+        }
+    }
 }
 
 #[derive(Debug, Clone)]
@@ -271,6 +295,8 @@ pub struct CaseIx {
     pub headers: usize,
     pub body: usize,
     pub query: usize,
+    #[serde(default)]
+    pub ct: usize,
 }
 
 // ---------------------------------------------------------------------------------------------
@@ -283,8 +309,8 @@ pub enum CtExpect {
     Exact(String),
     /// documented content type of the body kind, compared normalised
     Documented(&'static str),
-    /// app wrote a content type *before* a body that documents its own: either one (not both)
-    ExactOrDocumented(String, &'static str),
+    /// the app wrote it through `.content_type(mime)`: compared normalised
+    Normalised(String),
 }
 
 #[derive(Debug, Clone, PartialEq)]
@@ -324,20 +350,16 @@ pub fn expected_for(ix: CaseIx, al: &Alphabets) -> Expected {
     let body = &al.bodies[ix.body].1;
     // `.header(name, v)` is documented as "Sets a header": last write per (case-insensitive) name wins.
     let mut map: Vec<(String, Vec<String>)> = vec![];
-    let mut explicit_ct: Option<(String, bool)> = None; // (value, written after the body)
-    for (after, ops) in [(false, &hs.before_body), (true, &hs.after_body)] {
+    for ops in [&hs.before_body, &hs.after_body] {
         for op in ops {
             match op {
                 HOp::Header(n, vals) => {
                     let lname = n.to_ascii_lowercase();
-                    if lname == "content-type" {
-                        explicit_ct = Some((vals[0].to_string(), after));
-                    } else {
-                        map.retain(|(k, _)| *k != lname);
-                        map.push((lname, vals.iter().map(|v| v.to_string()).collect()));
-                    }
+                    assert!(lname != "content-type", "content type is its own dimension");
+                    map.retain(|(k, _)| *k != lname);
+                    map.push((lname, vals.iter().map(|v| v.to_string()).collect()));
                 }
-                HOp::ContentType(m) => explicit_ct = Some((m.to_string(), after)),
+                HOp::ContentType(_) => unreachable!("content type is its own dimension"),
             }
         }
     }
@@ -348,13 +370,13 @@ pub fn expected_for(ix: CaseIx, al: &Alphabets) -> Expected {
         }
     }
     headers.sort();
-    let documented = documented_content_type(body);
-    let content_type = match (explicit_ct, documented) {
+    // an app-specified content type wins wherever it is written; the body kind's documented
+    // default applies only when the app wrote none
+    let content_type = match (CT_PLACEMENTS[ix.ct].op(), documented_content_type(body)) {
         (None, None) => CtExpect::Absent,
         (None, Some(d)) => CtExpect::Documented(d),
-        (Some((v, _)), None) => CtExpect::Exact(v),
-        (Some((v, true)), Some(_)) => CtExpect::Exact(v),
-        (Some((v, false)), Some(d)) => CtExpect::ExactOrDocumented(v, d),
+        (Some((_, HOp::Header(_, vals))), _) => CtExpect::Exact(vals[0].to_string()),
+        (Some((_, HOp::ContentType(m))), _) => CtExpect::Normalised(util::normalise_content_type(m)),
     };
     let body = match body {
         BodySpec::None => BodyExpect::Bytes(vec![]),
@@ -456,16 +478,20 @@ pub fn compare(exp: &Expected, body_spec: &BodySpec, got: &HttpRequest) -> Optio
         CtExpect::Documented(d) => {
             got_ct.len() == 1 && util::normalise_content_type(&got_ct[0].1) == *d
         }
-        CtExpect::ExactOrDocumented(v, d) => {
-            got_ct.len() == 1
-                && (&got_ct[0].1 == v || util::normalise_content_type(&got_ct[0].1) == *d)
-        }
+        CtExpect::Normalised(v) => got_ct.len() == 1 && util::normalise_content_type(&got_ct[0].1) == *v,
     };
     if !ct_ok {
-        return Some((
-            "request/content-type".into(),
-            format!("content-type {:?}, expected {:?}", got_ct, exp.content_type),
-        ));
+        let app_wrote_one = matches!(exp.content_type, CtExpect::Exact(_) | CtExpect::Normalised(_));
+        let is_body_default = got_ct.len() == 1
+            && documented_content_type(body_spec) == Some(util::normalise_content_type(&got_ct[0].1).as_str());
+        let key = if app_wrote_one && is_body_default {
+            "request/content-type-replaced-by-body-default"
+        } else if app_wrote_one && got_ct.len() > 1 {
+            "request/content-type-duplicated"
+        } else {
+            "request/content-type"
+        };
+        return Some((key.into(), format!("content-type {:?}, expected {:?}", got_ct, exp.content_type)));
     }
     // body
     let body_ok = match &exp.body {
@@ -522,8 +548,11 @@ macro_rules! apply_hops {
 }
 
 macro_rules! apply_case {
-    ($b:expr, $hs:expr, $body:expr, $query:expr) => {{
+    ($b:expr, $hs:expr, $body:expr, $query:expr, $ct:expr) => {{
+        let ct_before: Vec<HOp> = $ct.op().filter(|(after, _)| !*after).map(|(_, o)| o).into_iter().collect();
+        let ct_after: Vec<HOp> = $ct.op().filter(|(after, _)| *after).map(|(_, o)| o).into_iter().collect();
         let b = apply_hops!($b, &$hs.before_body);
+        let b = apply_hops!(b, &ct_before);
         let b = match $body {
             BodySpec::None => b,
             BodySpec::Str(s) => b.body_string(s.clone()),
@@ -536,6 +565,7 @@ macro_rules! apply_case {
             )),
             BodySpec::IntoStr(s) => b.body(*s),
         };
+        let b = apply_hops!(b, &ct_after);
         let b = apply_hops!(b, &$hs.after_body);
         match $query {
             QuerySpec::None => b,
@@ -568,7 +598,7 @@ fn start(ix: CaseIx, al: &Arc<Alphabets>) -> (Host, crate::app::Step) {
                     _ => unreachable!(),
                 },
             };
-            let b = apply_case!(b, hs, body, query);
+            let b = apply_case!(b, hs, body, query, CT_PLACEMENTS[ix.ct]);
             let cmd = b.build().then_send(Event::Bytes);
             Host::start_cmd(cmd)
         }
@@ -593,7 +623,7 @@ fn start(ix: CaseIx, al: &Arc<Alphabets>) -> (Host, crate::app::Step) {
                         _ => unreachable!(),
                     },
                 };
-                let b = apply_case!(b, hs, body, query);
+                let b = apply_case!(b, hs, body, query, CT_PLACEMENTS[ix.ct]);
                 b.send(Event::Bytes);
                 crux_core::Command::done()
             });
@@ -740,12 +770,13 @@ pub fn describe_case(ix: CaseIx, al: &Alphabets) -> Value {
         "headers": al.header_sets[ix.headers].name,
         "body": al.bodies[ix.body].0,
         "query": format!("{:?}", QUERIES[ix.query]),
+        "content_type": format!("{:?}", CT_PLACEMENTS[ix.ct]),
     })
 }
 
 fn case_size(ix: CaseIx) -> usize {
     // smaller indices = simpler alphabet members; APIs/ctors weigh least
-    (ix.headers + ix.body + ix.query + ix.url) * 8 + ix.method * 2 + ix.api + ix.ctor
+    (ix.headers + ix.body + ix.query + ix.url + ix.ct) * 8 + ix.method * 2 + ix.api + ix.ctor
 }
 
 fn self_checks(al: &Arc<Alphabets>) -> Value {
@@ -768,7 +799,7 @@ fn self_checks(al: &Arc<Alphabets>) -> Value {
     // canary: `compare` must accept a faithful rendering of the description and reject it for
     // every wrong description. The observation is synthetic, so the canary judges the
     // comparison, not crux.
-    let ix = CaseIx { api: 0, ctor: 0, method: 2, url: 5, headers: 5, body: 2, query: 0 };
+    let ix = CaseIx { api: 0, ctor: 0, method: 2, url: 5, headers: 5, body: 2, query: 0, ct: 0 };
     let body_spec = &al.bodies[ix.body].1;
     let exp = expected_for(ix, al);
     let mut headers: Vec<crux_http::protocol::HttpHeader> = exp
@@ -811,8 +842,19 @@ fn self_checks(al: &Arc<Alphabets>) -> Value {
     let mut wrong = exp.clone();
     wrong.headers[0].1 = wrong.headers[0].1.to_ascii_lowercase();
     rejected += compare(&wrong, body_spec, &op).is_some() as u32;
-    if rejected != 6 {
-        mc_kit::machinery_error(&format!("C14 canary: only {rejected}/6 wrong descriptions rejected"));
+    // the body kind's default content type must be rejected wherever the app wrote its own
+    for ct in 1..CT_PLACEMENTS.len() {
+        let exp_ct = expected_for(CaseIx { ct, ..ix }, al);
+        match compare(&exp_ct, body_spec, &op) {
+            Some((k, _)) if k == "request/content-type-replaced-by-body-default" => rejected += 1,
+            other => mc_kit::machinery_error(&format!(
+                "C14 canary: body default accepted/misclassified for {:?}: {other:?}",
+                CT_PLACEMENTS[ct]
+            )),
+        }
+    }
+    if rejected != 10 {
+        mc_kit::machinery_error(&format!("C14 canary: only {rejected}/10 wrong descriptions rejected"));
     }
     // determinism of the harness on the first case
     let a = run_case(ix, al, false);
@@ -889,11 +931,11 @@ pub fn run(tier: Tier) -> i32 {
         let mut agg = Agg::new();
         for headers in 0..al.header_sets.len() {
             for body in 0..al.bodies.len() {
-                for query in 0..QUERIES.len() {
-                    let ix = CaseIx { api, ctor, method, url, headers, body, query };
+                for (query, ct) in (0..QUERIES.len()).flat_map(|q| (0..CT_PLACEMENTS.len()).map(move |c| (q, c))) {
+                    let ix = CaseIx { api, ctor, method, url, headers, body, query, ct };
                     let r = run_case(ix, &al, false);
                     agg.evaluations += 1;
-                    if headers != 0 || body != 0 || query != 0 {
+                    if headers != 0 || body != 0 || query != 0 || ct != 0 {
                         agg.nontrivial += 1;
                     }
                     agg.transitions += r.transitions;
@@ -931,7 +973,7 @@ pub fn run(tier: Tier) -> i32 {
         }
     }
     let occurrences = total.report(&reporter);
-    let product = chunks.len() * al.header_sets.len() * al.bodies.len() * QUERIES.len();
+    let product = chunks.len() * al.header_sets.len() * al.bodies.len() * QUERIES.len() * CT_PLACEMENTS.len();
     util::require_nonvacuous("C14", total.nontrivial, total.distinct_obs.len());
     let coverage = json!({
         "states": total.evaluations,
@@ -939,7 +981,7 @@ pub fn run(tier: Tier) -> i32 {
         "traces_validated_against_impl": total.validated,
         "evaluations": total.evaluations,
         "distinct_nontrivial": total.nontrivial,
-        "rule": "bounded-exhaustive cartesian product (model_checking by exhaustive enumeration of a finite input space, no sampling): apis x constructors x methods x urls x header-sets x bodies x query-structs, each case built through the real builders and run to the emitted effect, the bridge encoding round trip and the answering event; cases are distinct by construction (distinct index tuples over duplicate-free alphabets, checked at start); non-trivial = has at least one header op, a body or a query struct",
+        "rule": "bounded-exhaustive cartesian product (model_checking by exhaustive enumeration of a finite input space, no sampling): apis x constructors x methods x urls x header-sets x bodies x content-type placements (none / set before the body call / set after it, through header() and through content_type()) x query-structs, each case built through the real builders and run to the emitted effect, the bridge encoding round trip and the answering event; cases are distinct by construction (distinct index tuples over duplicate-free alphabets, checked at start); non-trivial = has at least one header op, a body, a content type of its own or a query struct",
         "exhaustive": total.evaluations as usize == product,
         "product_size": product,
         "alphabets": {
@@ -952,6 +994,7 @@ pub fn run(tier: Tier) -> i32 {
                 BodySpec::Bytes(x) | BodySpec::Reader(x, _) if x.len() > 64 => format!("{n}: {}", util::show_bytes(x)),
                 other => format!("{n}: {other:?}"),
             }).collect::<Vec<_>>(),
+            "content_type_placements": CT_PLACEMENTS.iter().map(|c| format!("{c:?} -> {:?}", c.op())).collect::<Vec<_>>(),
             "query_structs": QUERIES.iter().map(|q| format!("{q:?} -> {:?}", q.pairs())).collect::<Vec<_>>(),
         },
         "tier_note": "quick and thorough enumerate the same product (it completes in seconds)",
@@ -969,6 +1012,7 @@ pub fn run(tier: Tier) -> i32 {
             "the url crate is the trusted base for URL syntax (hand-written expectations for every alphabet URL are cross-checked against it at start)",
             "serde_json / url::form_urlencoded are the conforming decoders for JSON and form bodies and for query strings",
             "header order is not compared (owned by C11)",
+            "a content type the app writes (header() or content_type()) wins regardless of builder-call order; the body kind's documented default applies only when the app wrote none",
             "Config::base_url joins are unreachable through the public API (no way to configure a Client) and are not enumerated",
         ],
     )
